@@ -30,7 +30,11 @@ RULE = (
     "(none, random, or related: zero-extended inside the same octet, one bit shorter, last / first bit inverted) that "
     "dirties the calculator; the bit sequence is handed over in rotating containers (big / little-endian bitarray, "
     "frozenbitarray of either bit order for the bitwise register; big-endian bitarray / frozenbitarray for the table register "
-    "and the bit-level front ends; bytes / bytearray / memoryview for the octet front ends).  Streaming: the register "
+    "and the bit-level front ends; bytes / bytearray / memoryview for the octet front ends).  Verify consistency: every "
+    "config x {bitwise, table, CALC singleton} x all four bit containers (incl. little-endian arrays on the table register, "
+    "where only the consistency clause is in scope) on Hypothesis-drawn bit strings and on arrays built exactly like the "
+    "octet front ends build them (bytes_to_bits(octets, 'big' | 'little')): verify_checksum accepts the value "
+    "calculate_checksum returns and refuses all its single-bit neighbours and value +-1.  Streaming: the register "
     "workflow init(); update() x n; digest() on Hypothesis-drawn chunk lists (empty, one-bit, chunks starting with 1..3 "
     "whole feeds of zeros, a long message cut at random points, a second round on the same register) plus directed "
     "loaded-register-then-z-zeros chunks for z = 0..3 feeds + 1, both register classes, all five configurations.  Histories: Hypothesis-drawn sequences of 2..10 random / related messages through ONE "
@@ -509,6 +513,73 @@ def oracle_extreme(case):
     if not _reference_applies(fe, msg) or fe_expected(fe, msg) != want:
         raise HarnessError(f"construction failed: reference CRC is not {hex(want)} for {case}")
     oracle_front({"fe": fe, "msg": msg, "prev": case.get("prev"), "values": "neighbours"})
+
+
+# ---------------------------------------------------------------------------------------------- verify consistency (any container)
+
+
+def _consistency_arg(case, rep):
+    """the message object: a bit sequence in a container, or (octets, bit order) exactly as bytes_to_bits(octets, order)
+    builds it - CRC16 hands bytes_to_bits(data) (big), CRC32 hands bytes_to_bits(byteswap_bytes(data), 'little')"""
+    if "octets" in case:
+        b = bitarray(endian=case["order"])
+        b.frombytes(bytes.fromhex(case["octets"]))
+        return frozenbitarray(b) if (rep or "").startswith("frozen") else b
+    return make_bits(case["bits"], rep)
+
+
+def oracle_verify_consistency(case):
+    """case = {cfg, bits | (octets, order), rep, prev}: the statement's last clause is a CONSISTENCY clause and holds for every
+    container a calculator accepts, whether or not its value is the reference remainder there (little-endian arrays on the
+    table register are outside the value clauses, see the domain note): calculate_checksum is deterministic, a w-bit
+    bitarray, and verify_checksum accepts exactly ba2int(calculate_checksum(data)) - every single-bit neighbour and value
+    +-1 (with wrap-around) is refused.  Where the value clause is in scope (bitwise register: the index-order bit sequence;
+    table register and singletons: big-endian bit order) the value must also be the reference remainder."""
+    cfg = case["cfg"]
+    w = crc_ref.WIDTH[cfg]
+    rep = case.get("rep") or ("little" if case.get("order") == "little" else "big")
+    seq = _consistency_arg(case, rep).to01()
+    for label, calc in calculators(cfg):
+        try:
+            if case.get("prev") is not None:
+                ccall(rep, calc.calculate_checksum, make_bits(case["prev"], rep))
+            arg = _consistency_arg(case, rep)
+            got = ccall(rep, calc.calculate_checksum, arg)
+            _same_bits(arg, seq, label)
+            if not isinstance(got, bitarray) or len(got) != w:
+                raise Fail("checksum_is_w_bits", repr(got), f"bitarray of {w} bits", label)
+            again = ccall(rep, calc.calculate_checksum, _consistency_arg(case, rep))
+            if again.to01() != got.to01():
+                raise Fail("calculate_deterministic", again.to01(), got.to01(), f"{label}:{rep}")
+            if label == "bitwise" or not rep.endswith("little"):
+                exp = format(crc_ref.rem(cfg, crc_ref.bits_of(seq)), f"0{w}b")
+                if got.to01() != exp:
+                    raise Fail("engine_equals_polynomial_remainder", got.to01(), exp, label)
+            v = int(got.to01(), 2)
+            ok = ccall(rep, calc.verify_checksum, _consistency_arg(case, rep), v)
+            if ok is not True:
+                raise Fail("verify_accepts_the_value_calculate_returns", {"value": hex(v), "result": ok}, {"value": hex(v), "result": True}, f"{label}:{rep}")
+            for other in _neighbours(v, w):
+                ok = ccall(rep, calc.verify_checksum, _consistency_arg(case, rep), other)
+                if ok is not False:
+                    raise Fail("verify_refuses_every_other_value", {"computed": hex(v), "value": hex(other), "result": ok}, {"computed": hex(v), "value": hex(other), "result": False}, f"{label}:{rep}")
+        except NotAccepted:
+            case["_container_not_accepted"] = True
+    if cfg == "crc8":
+        # the bit-level front end with a check(): the same consistency clause, any container
+        from okdmr.dmrlib.etsi.crc.crc8 import CRC8
+
+        try:
+            v = ccall(rep, CRC8.calculate, _consistency_arg(case, rep))
+            if not _is_int(v) or not 0 <= v < 256:
+                raise Fail("front_end_returns_w_bit_int", repr(v), "int in [0, 2^8)", f"crc8:{rep}")
+            if ccall(rep, CRC8.check, _consistency_arg(case, rep), v) is not True:
+                raise Fail("check_accepts_computed_value", False, True, f"crc8:{rep}")
+            for other in _neighbours(v, 8):
+                if ccall(rep, CRC8.check, _consistency_arg(case, rep), other) is not False:
+                    raise Fail("check_rejects_every_other_value", {"computed": hex(v), "value": hex(other), "result": True}, {"computed": hex(v), "value": hex(other), "result": False}, f"crc8:{rep}")
+        except NotAccepted:
+            case["_container_not_accepted"] = True
 
 
 # ---------------------------------------------------------------------------------------------- streaming interface (lesson A.5)
@@ -1304,12 +1375,49 @@ def drv_streaming(ctx: Ctx, sub: SubCheck):
     ctx.shards(work, items)
 
 
+def drv_verify_consistency(ctx: Ctx, sub: SubCheck):
+    st = _st()
+    bits = st.one_of(st_bits(0, 400), st.integers(1, 40).flatmap(lambda n: st_bits(8 * n, 8 * n)))
+    as_bits = st.builds(lambda c, b, r, p: {"cfg": c, "bits": b, "rep": r, "prev": p}, st.sampled_from(CFGS), bits, st.sampled_from(BIT_REPS_ANY), st.one_of(st.none(), st_bits(1, 40)))
+    # what the octet front ends hand to their calculator: bytes_to_bits(octets, order)
+    as_octets = st.builds(lambda c, d, o, fr: {"cfg": c, "octets": d.hex(), "order": o, "rep": ("frozen_" if fr else "") + o, "prev": None},
+                          st.sampled_from(CFGS), st.binary(min_size=0, max_size=48), st.sampled_from(["little", "big"]), st.booleans())
+
+    def rec(c, t):
+        n = len(c["bits"]) if "bits" in c else 4 * len(c["octets"])
+        t.case(sub.name, key=c, nontrivial=n >= 8, cls=f"{c['cfg']}:{c['rep']}" + (":not_accepted_somewhere" if c.get("_container_not_accepted") else ""))
+        t.cls(sub.name, "built_like_front_end_" + c["order"] if "octets" in c else "bit_sequence")
+
+    _hyp(ctx, sub, st.one_of(as_bits, as_octets), oracle_verify_consistency, 60, 1200, rec)
+    # directed: every config x container x a ladder of lengths (bit level), and the CRC-32 / CRC-16 front-end messages
+    items = [(cfg, rep) for cfg in CFGS for rep in BIT_REPS_ANY]
+
+    def work(it, t: Tally):
+        cfg, rep = it
+        rng = ctx.rng("verify_consistency", cfg, rep)
+        f = feed(cfg)
+        for n in [1, f - 1, f, f + 1, 2 * f + 3, 16, 28, 80, 96, rng.randrange(100, 400)]:
+            case = {"cfg": cfg, "bits": _rand_bits(rng, n), "rep": rep, "prev": None}
+            ctx.run_case(sub.name, oracle_verify_consistency, case, t)
+            t.case(sub.name, key=case, nontrivial=n >= 8, cls=f"{cfg}:{rep}")
+        for nd in [2, 10, 12, 2 * rng.randrange(8, 30)]:
+            d = bytes(rng.getrandbits(8) for _ in range(nd))
+            order = "little" if rep.endswith("little") else "big"
+            case = {"cfg": cfg, "octets": (crc_ref.pair_swap(d) if order == "little" else d).hex(), "order": order, "rep": rep, "prev": None}
+            ctx.run_case(sub.name, oracle_verify_consistency, case, t)
+            t.case(sub.name, key=case, nontrivial=True, cls=f"{cfg}:{rep}")
+            t.cls(sub.name, "built_like_front_end_" + order)
+
+    ctx.shards(work, items)
+
+
 SUBCHECKS = [
     SubCheck("captured_vectors", oracle_captured, drv_captured, "reference and library agree with CRC values captured from real radios"),
     SubCheck("extreme_outputs", oracle_extreme, drv_extreme, "messages constructed so that the CRC is 0 / all ones / 1 / top bit only / all ones - 1 / top bit clear, for every engine config and front end: value, modes, check incl. wrap-around neighbours"),
     SubCheck("engine_every_length", oracle_engine, drv_engine_lengths, "5 configs x every length 0..400 x {0s, 1s, random}: all calculators == M(x)x^w mod G"),
     SubCheck("engine_unit_vectors", oracle_engine, drv_engine_units, "all unit vectors of 7 lengths per config (with linearity: every message)"),
     SubCheck("engine_random", oracle_engine, drv_engine_random, "Hypothesis: (config, length 0..400, contents, previous message)"),
+    SubCheck("verify_consistency", oracle_verify_consistency, drv_verify_consistency, "every container a calculator accepts (incl. little-endian arrays on the table register and the arrays the octet front ends build): verify_checksum accepts exactly ba2int(calculate_checksum(data))"),
     SubCheck("streaming", oracle_streaming, drv_streaming, "register workflow init(); update() x n; digest() with arbitrary split points (empty, 1-bit, zero-feed-leading chunks), both register classes: every intermediate register and the digest == remainder"),
     SubCheck("history", oracle_history, drv_history, "sequences of (related) messages through ONE calculator / front-end singleton from import-time state: each result is that message's own CRC"),
     SubCheck("engine_linearity", oracle_linearity, drv_linearity, "Hypothesis: crc(a^b) == crc(a)^crc(b), both register modes"),
